@@ -97,6 +97,7 @@ def in_group(obj, group: str) -> bool:
 def traverse(prs, group: str, stats: dict, limit: int = 4000, only: set | None = None, skip: frozenset = frozenset()):
     """Read every non-creating public property of every object of `group` reachable from prs; navigate through all groups."""
     seen = set()
+    foreign: dict = {}
     keep = []          # proxies are created on the fly: keep them alive so that id() is not reused within one traversal
     stack = [prs]
     n = 0
@@ -153,6 +154,23 @@ def traverse(prs, group: str, stats: dict, limit: int = 4000, only: set | None =
                     obj[0]
             except Exception:
                 pass
+            # a membership query whose answer is "not present" (documented: ValueError): the member of ANOTHER collection of the same
+            # class met earlier in this traversal (a layout of the other master, a shape of another slide)
+            if hasattr(cls, "index"):
+                other = foreign.get(cls.__name__)
+                try:
+                    first = next(iter(obj), None)
+                except Exception:
+                    first = None
+                if other is not None and other[0] is not obj and first is not None and other[1] is not first:
+                    try:
+                        obj.index(other[1])
+                    except Exception:
+                        pass
+                    n += 1
+                    stats.setdefault("reads", set()).add("%s.index(<non-member>)" % cls.__name__)
+                if first is not None and cls.__name__ not in foreign:
+                    foreign[cls.__name__] = (obj, first)
     stats["count"] = stats.get("count", 0) + n
 
 
